@@ -75,6 +75,16 @@ PROPS["C20"] = {
     "assumptions": ["ErrorRanges: Python float arithmetic is exercised natively, not modelled"],
 }
 
+PROPS["C04"] = {
+    "level": "other",
+    "text": "Each pipeline step is proved against the abstract step contract: it returns None exactly when it consumes the read, and "
+            "then exactly one write on exactly one writer and/or exactly one filter counter increment happened (ghost write log); "
+            "sinks pair write and statistics update.",
+    "note": "Trusted: writers write what they are given; Predicate.test deterministic.  Report arithmetic (Statistics.collect / as_json) "
+            "is checked by a bounded native stand-in.",
+    "assumptions": ["writes are observed through a ghost log, not through files"],
+}
+
 _PENDING = "check not built yet in this revision (see DESIGN.md section 7 for the build order)"
 NOT_APPLICABLE = {
     "C12": "quantifies over fault sequences, crash points and schedules and contains a liveness clause; malformed-input detection "
